@@ -25,7 +25,7 @@ EXPLANATION = (
     "that was grouped); optional `feature` arguments are tested with `is None` (0 and '' are column labels)."
 )
 NOT_DECIDED = "agreement of summary contents with transform outputs on data"
-FLOORS = {"R-summary-scope": 6, "R-measure-formula": 4, "R-single-table": 4, "R-history-complete": 6, "R-history-fields": 2, "R-readonly-queries": 30}
+FLOORS = {"R-summary-scope": 7, "R-measure-formula": 4, "R-single-table": 4, "R-history-complete": 6, "R-history-fields": 2, "R-readonly-queries": 30}
 
 
 def _emits(node, sink="summaries"):
@@ -88,6 +88,22 @@ def rule_summary_scope(ctx):
     guard = any(cmp_canon(c) == ("feature", "in", "self.features") for a in walk_no_nested(fi.node) if isinstance(a, ast.Assert) for c in conjuncts(a.test))
     ctx.ob(R, construct(fi, "requested features = all kept features, or the one kept feature asked for"), ok and guard, loc(fi),
            "" if (ok and guard) else f"assignments: {vals}, membership assertion: {guard}")
+
+
+def rule_summary_number_filter(ctx, R="R-summary-scope"):
+    """Raw numbers among the values of a qualitative feature are listed by their string form only: the
+    filter covers numpy AND builtin numbers (a JSON round trip turns numpy.int64 into int)."""
+    fi = ctx.repo.find_function(f"{F_BASE}::BaseDiscretizer.summary")
+    tested = set()
+    for c in ast.walk(fi.node):
+        if isinstance(c, ast.Call) and call_name(c) == "isinstance" and len(c.args) == 2:
+            t = c.args[1]
+            for e in (t.elts if isinstance(t, ast.Tuple) else [t]):
+                tested.add(unparse(e))
+    need = {"floating", "float", "integer", "int"}
+    ok = need <= tested
+    ctx.ob(R, construct(fi, "raw numbers of qualitative features are skipped whatever their flavour (numpy or builtin)"), ok, loc(fi),
+           "" if ok else f"isinstance tests cover {sorted(tested)}: missing {sorted(need - tested)} -- after a JSON round trip the values are builtin numbers and would be listed twice ([3, '3'])")
 
 
 def rule_single_table(ctx):
@@ -246,6 +262,7 @@ def check(ctx):
     rule_nan_flag_source(ctx)
     rule_history_complete(ctx)
     rule_history_fields(ctx)
+    rule_summary_number_filter(ctx)
     from . import carver
     from .truthiness import check_optional_by_none
 
